@@ -17,7 +17,7 @@ run_demo() {
     ( cd $D && timeout 300 $WT/target/debug/steel demo.scm 2>&1 | tail -15 | cut -c1-400 )
     echo "[exit status of the last pipeline stage is not the demo's]"
   elif [ -f $D/run_demo.sh ]; then
-    sh $D/run_demo.sh $WT 2>&1 | tail -25 | cut -c1-400
+    bash $D/run_demo.sh $WT 2>&1 | tail -25 | cut -c1-400
   else
     echo "no demo.scm / run_demo.sh"
   fi
